@@ -4,6 +4,7 @@ from tools.smtpgen import step, script_field
 from tools.lv import hexs
 
 LEVEL = "proof"
+RETRY_TIMING = True
 CORRESPONDENCE = ("Model/Tls.lean (establish, starttls, sendOnce, expectHandshake) on top of Model/Client.lean vs SmtpTransport and "
                   "AsyncSmtpTransport<Tokio1Executor> (SmtpClient::connection, Tokio1Executor::connect, starttls, auth after TLS) against a "
                   "scripted peer that hands the socket to a native-tls acceptor with fixture certificates")
@@ -68,6 +69,19 @@ def gen(tier, rng):
                     for client in "sa":
                         cases.append(case(client, mode, cert, flags, i % 2 == 0, kind))
                         i += 1
+    # which roots count: the test CA in the platform's default store (fifth flag), CertificateStore::None, a root that signed
+    # nothing added (first flag 2), and the certificates again
+    for mode in "rw":
+        for cert in "gws":
+            for a in "012":
+                for sn in "01":
+                    for aih in "01":
+                        for client in "sa":
+                            cases.append(case(client, mode, cert, f"{a}{sn}0{aih}1", i % 2 == 0, "ok"))
+                            i += 1
+            for client in "sa":
+                cases.append(case(client, mode, cert, "2000", True, "ok"))
+                cases.append(case(client, mode, cert, "2100", True, "ok"))
     n = {"quick": 150, "search": 600, "thorough": 3000}[tier]
     for _ in range(n):
         mode = rng.choice("orw")
@@ -85,6 +99,11 @@ def gen(tier, rng):
                 inside = inside[:k + 1]
         cases.append(case("sa"[_ % 2], mode, "g", "1000", creds, rng.choice(["ok", "ok", "injected"]), inside=inside))
     return cases
+
+
+def timing_dependent(case):
+    # a real client against a real peer with read timeouts: a disagreement is re-run alone before it counts
+    return case.split("\t")[0] in ("pool", "wstall", "client", "tls", "sched")
 
 
 def nontrivial(case):
